@@ -1,0 +1,65 @@
+//go:build verif
+// +build verif
+
+// Contracts for package vm: the value model (observers of reflect.Value), the conversion helpers and the operator
+// functions (C05 arithmetic tower, C06 equality, C07 operand order, C20 wrapped operands). Comment-only file.
+//
+// reflect.Value is opaque to the verifier; these observers are its abstract view. The trusted contracts of the
+// reflect API (/verif/trusted/reflect.spec) are stated over the same observers.
+
+package vm
+
+//@ spec fun rvInt(v reflect.Value) int
+//@ spec fun rvUint(v reflect.Value) int
+//@ spec fun rvFloat(v reflect.Value) float64
+//@ spec fun rvStr(v reflect.Value) string
+//@ spec fun rvBool(v reflect.Value) bool
+//@ spec fun rvElem(v reflect.Value) reflect.Value
+//@ spec fun rvLen(v reflect.Value) int
+//@ spec fun rvIface(v reflect.Value) any
+
+// kind classes
+//@ spec fun isIntK(k int) bool = k == reflect.Int || k == reflect.Int8 || k == reflect.Int16 || k == reflect.Int32 || k == reflect.Int64
+//@ spec fun isUintK(k int) bool = k == reflect.Uint || k == reflect.Uint8 || k == reflect.Uint16 || k == reflect.Uint32 || k == reflect.Uint64
+//@ spec fun isFloatK(k int) bool = k == reflect.Float32 || k == reflect.Float64
+
+// unwrap(v): the value an operation must act on — what an interface-typed container element or result wraps (C20)
+//@ spec fun unwrap(v reflect.Value) reflect.Value = ite(rvKind(v) == reflect.Interface && !rvIsNil(v), rvElem(v), v)
+// deref1(v): what tryToX looks at (one level of pointer or interface removed)
+//@ spec fun deref1(v reflect.Value) reflect.Value = ite(rvKind(v) == reflect.Ptr || rvKind(v) == reflect.Interface, rvElem(v), v)
+
+// numeric views of a script value of the classes the arithmetic property is about (int64, float64)
+//@ spec fun asI(v reflect.Value) int = rvInt(v)
+//@ spec fun asF(v reflect.Value) float64 = ite(isIntK(rvKind(v)), i2f(rvInt(v)), rvFloat(v))
+// default formatting of a value for concatenation: strings as they are, everything else fmt.Sprint (uninterpreted)
+//@ spec fun strOf(v reflect.Value) string = ite(rvKind(v) == reflect.String, rvStr(v), sprintI(rvIface(v)))
+
+// ---------------------------------------------------------------------------
+// small-integer cache (C05: fast paths return the same values as the general path)
+//@ global_inv cache: forall i int :: 0 <= i && i < 4097 ==> rvKind(int64Cache[i]) == reflect.Int64 && rvInt(int64Cache[i]) == i - 1 && rvValid(int64Cache[i]) && !rvIsNil(int64Cache[i])
+
+//@ func init#1
+//@ props C05
+//@ modifies elems(int64Cache)
+//@ ensures [C05] cache: forall i int :: 0 <= i && i < 4097 ==> rvKind(int64Cache[i]) == reflect.Int64 && rvInt(int64Cache[i]) == i - 1 && rvValid(int64Cache[i]) && !rvIsNil(int64Cache[i])
+//@ loop 0 invariant -1 <= i && i <= 4096 && (forall k int :: 0 <= k && k < i + 1 ==> rvKind(int64Cache[k]) == reflect.Int64 && rvInt(int64Cache[k]) == k - 1 && rvValid(int64Cache[k]) && !rvIsNil(int64Cache[k]))
+
+// operands of a binary operator as this activation obtained them (second traced result of invokeExpr = the value)
+//@ spec fun opL() reflect.Value = unwrap(res2(0))
+//@ spec fun opR() reflect.Value = unwrap(res2(1))
+//@ spec fun shortCircuit() bool = ncalls() == 1
+// shift counts are taken as unsigned
+//@ spec fun u64(x int) int = ite(x >= 0, x, x + 18446744073709551616)
+
+// "string > float > int": the kind an addition is carried out in
+//@ spec fun precK(a int, b int) int = ite(a == b, a, ite(a == reflect.String, a, ite(isFloatK(a), ite(b == reflect.String, b, a), ite(isIntK(a), ite(b == reflect.String || isFloatK(b), b, a), a))))
+
+// default formatting (fmt.Sprint of one value) and repetition are uninterpreted
+//@ spec fun sprintI(i any) string
+//@ spec fun strRepeat(s string, n int) string
+
+// equality relation of the language (C06), see the contract of equal
+//@ spec fun eqV(a reflect.Value, b reflect.Value) bool
+
+// the two boolean values
+//@ global_inv bools: trueValue != falseValue && rvKind(trueValue) == reflect.Bool && rvBool(trueValue) && rvKind(falseValue) == reflect.Bool && !rvBool(falseValue) && rvValid(trueValue) && rvValid(falseValue)
